@@ -17,17 +17,21 @@ def clear_of_border(n, it, o, row, margin=2):
 
 
 def farshift_cases(ctx, count):
-    """offsets of about half the grid with a narrow support placed so that the displaced
-    support is interior as well (boundary of the proof's stencil-in-table-range hypothesis)"""
+    """offsets of about half the grid with a narrow support placed so that the displaced support is interior as well
+    (boundary of the proof's stencil-in-table-range hypothesis).  Swept, not drawn: upwards the integer part of n/2+offset is
+    exactly size, size-1, size-2, size-3 (the guard's upper edge and the stencil leaving the table at the top), downwards
+    n/2+offset lies in (-1,0], (0,1], (1,2], (2,3] (guard's lower edge, stencil leaving at the bottom), each for it = 2, 3, 4"""
     rng = ctx.rng
     cases = []
     for i in range(count):
-        n = rng.choice(range(16, 34))
+        sgn = 1 if i % 2 == 0 else -1
+        r = (i // 2) % 4
+        it = 2 + (i // 8) % 3
+        n = rng.choice(range(20, 34))
         h = n // 2
-        it = rng.choice([2, 3, 4])
         d = rng.choice(["x", "y"])
-        sgn = rng.choice([-1, 1])
-        o = sgn * (h - rng.randint(0, 3) + rng.randint(0, 15) / 16.0)
+        f = rng.randint(1 if r == 0 else 0, 15) / 16.0
+        o = (n - r - h + f) if sgn > 0 else -(h - r + f)
         data = [0.0] * (n * n)
         if sgn > 0:
             a = n - 7
@@ -46,7 +50,13 @@ def farshift_cases(ctx, count):
 
 
 def oracle_conservation(ctx, c, r):
+    """plain row sums before/after apply() on the implementation.  Where the stencil leaves the table range the pinned code
+    drops stencil points (open finding kick-stencil-out-of-table-range); the model mirrors that, so the sum the KNOWN defect
+    produces is the model's: a sum that differs from both the input's and the model's is a different defect and is reported
+    as such (sig as_modelled=False does not match the listed finding).  A violation the listed finding does not explain is
+    preferred over one it explains."""
     n, nb, it = c.n, c.nb, c.it
+    listed = None
     for b in range(nb):
         for k in range(n):
             o = c.row_offset(b, k)
@@ -58,28 +68,37 @@ def oracle_conservation(ctx, c, r):
             prop_hyp = clear_of_border(n, it, o, row)
             if not (hyp or prop_hyp):
                 continue
-            out = [r["impl_out"][b * n * n + (k * n + t if c.dir == "y" else t * n + k)] for t in range(n)]
+            cells = [b * n * n + (k * n + t if c.dir == "y" else t * n + k) for t in range(n)]
+            out = [r["impl_out"][i] for i in cells]
+            as_modelled = False
             if any(isinstance(v, str) for v in out):
                 s_out = "nonfinite"
                 bad = True
             else:
                 s_in, s_out = sum(row), sum(out)
-                exact = c.stream in ("exact", "whole") and it < 4
+                exact = c.stream in ("exact", "whole", "edges") and it < 4
                 tol = 0 if exact else rnd.kick_tol(n, it, o, row, hyp)      # proved bound (C01_sm_row_kick_rounding) where it applies
                 bad = abs(s_out - s_in) > tol
+                as_modelled = abs(s_out - sum(r["model_out"][i] for i in cells)) <= tol
             if bad:
                 jd, _ = kc.split(n, o)
                 cen = kc.centre(it)
                 out_of_table = not (0 <= jd - cen and jd + it - 1 - cen < n)
-                ctx.violation("impl-oracle", "row sum changes under a kick although the support is clear of the border before and after",
-                              case=c.replay(), observed=dict(b=b, row=k, sum_out=str(s_out)), expected=str(sum(row)),
-                              sig=dict(kind="kick", clause="conservation", stencil_out_of_table_range=out_of_table))
+                v = dict(case=c.replay(), observed=dict(b=b, row=k, sum_out=str(s_out)), expected=str(sum(row)),
+                         sig=dict(kind="kick", clause="conservation", stencil_out_of_table_range=out_of_table, as_modelled=as_modelled))
+                if out_of_table and as_modelled:
+                    listed = listed or v
+                    continue
+                ctx.violation("impl-oracle", "row sum changes under a kick although the support is clear of the border before and after", **v)
                 return
             ctx.case_done((c.cid, b, k), why == "interior" and o != 0)
+    if listed:
+        ctx.violation("impl-oracle", "row sum changes under a kick although the support is clear of the border before and after", **listed)
 
 
 def run(ctx):
-    ctx.rule = ("kick cases as in C02 plus a far-shift stream (|offset| ~ n/2) ; per (case,bunch,row) the plain sum before/after "
+    ctx.rule = ("kick cases as in C02 plus a far-shift stream (|offset| ~ n/2) and an edge stream (integer part of n/2+offset exactly at the guard / "
+                "stencil / table boundaries of the generated updateSM body, odd and even sizes, it 1..4) ; per (case,bunch,row) the plain sum before/after "
                 "apply() on the implementation whenever the theorem's hypotheses (row_ok) or the property's own hypothesis "
                 "(support clear of the border before and after) hold. Non-trivial: interior non-empty support and non-zero offset.")
     ctx.rule += (" fp cases: both derivation stencils x four FPType variants, n 9..65, nb 1..3, axes with integer / "
@@ -91,7 +110,7 @@ def run(ctx):
                  "source untouched; extracted copy model (generated count/indices) exact.")
     coq = vp_coq.full_check("C01", ctx, fams=("kick", "fp", "run", "round"))
     nk = 120 if ctx.quick() else 3000
-    cases = kc.gen_cases(ctx, nk) + farshift_cases(ctx, 24 if ctx.quick() else 400)
+    cases = kc.gen_cases(ctx, nk) + farshift_cases(ctx, 24 if ctx.quick() else 400) + kc.with_rng(ctx, 101, kc.edge_cases, ctx, 52 if ctx.quick() else 800)
     res = kc.run_cases(ctx, cases)
     dis = []
     for c in cases:
@@ -119,6 +138,7 @@ def run(ctx):
     ctx.assumptions += ["exact-arithmetic model; the rounding clause of the row kick and of the 3-point Fokker-Planck column is bounded by "
                         "theorem (C01_sm_row_kick_rounding, C01_fp3_rounding_any_axis) and these bounds are the oracle tolerances; the "
                         "model-vs-implementation comparison of whole outputs still uses the exact/tolerance streams (DESIGN 3)"]
+    coq = kc.downgrade_usm(ctx, coq, dis, validated=len(cases) > 0)
     conclude(ctx, coq, dis)
 
 
